@@ -182,3 +182,14 @@ func FinishVT(v *VT) {
 		v.Write(NativeOutput(), ASCIIWidth)
 	}
 }
+
+// TruthfulReports makes the terminal answer cursor-position queries with the position of
+// the VT model's cursor (instead of the fixed ESC[1;1R of sessions that do not model the
+// screen).
+func TruthfulReports(v *VT) {
+	StdinHook = func(buf []byte) (int, error) {
+		FinishVT(v)
+		row, col := v.Row+1, v.Col+1
+		return copy(buf, []byte("\x1b["+strconv.Itoa(row)+";"+strconv.Itoa(col)+"R")), nil
+	}
+}
